@@ -21,13 +21,28 @@ func (p Persist) Load(ctx context.Context, name string) ([]byte, error) {
 	return os.ReadFile(filepath.Join(p.basepath, name))
 }
 
-// Store persists the given bytes in a file of the given name, if it
-// doesn't exist already.
+// Store persists the given bytes in a file of the given name. The bytes
+// are written to a temporary file in the same directory which is then
+// renamed onto the final name, so a reader (or a crash) never sees a
+// partially written node, and a file left torn by an earlier writer is
+// replaced rather than kept.
 func (p Persist) Store(ctx context.Context, name string, bytes []byte) error {
 	path := filepath.Join(p.basepath, name)
-	_, err := os.Stat(path)
-	if os.IsNotExist(err) {
-		return os.WriteFile(filepath.Join(p.basepath, name), bytes, 0644)
+	f, err := os.CreateTemp(p.basepath, ".tmp-*")
+	if err != nil {
+		return err
+	}
+	tmp := f.Name()
+	_, err = f.Write(bytes)
+	if cerr := f.Close(); err == nil {
+		err = cerr
+	}
+	if err == nil {
+		err = os.Rename(tmp, path)
+	}
+	if err != nil {
+		os.Remove(tmp)
+		return err
 	}
 	return nil
 }
